@@ -237,3 +237,21 @@ Proof. intros c s1 s2 m H k. rewrite !lookupl_kapply. now rewrite H. Qed.
 (** the register is not replay-idempotent *)
 Lemma reg_not_replay_idempotent : ~ replay_idempotent N N rapply req_ KConfig.
 Proof. intros H. specialize (H 0%N [1%N]). vm_compute in H. discriminate. Qed.
+
+(** ** the lag of the log cut is NECESSARY (C04).  Register node, history [reg_hist], previous
+    snapshot at 2, new one at 6.  Were the log cut at the NEW snapshot's index (6) while the catalogue
+    still names the previous snapshot (2) - a kill between the two actors' writes - the entries 3..6
+    would be gone: the restarted Config register holds 5 + 2 = 7 ... but the live node's Table register
+    holds 7 and the restarted one 0. *)
+Lemma cut_at_new_snapshot_refuted :
+  let live := run N N rapply reg_hist (init_node N rinit) in
+  let restarted :=
+      start_up_cut N N rapply rload rinit
+                   (Some (2, build_snapshot N rsnap (run N N rapply (firstn 2 reg_hist) (init_node N rinit))))
+                   6 (skipn 6 reg_hist) (length reg_hist) in
+  live KTable = 7%N /\ restarted KTable = 0%N /\
+  (* with the lag (cut at the previous snapshot, 2) the same disk restarts correctly *)
+  (forall c, start_up_cut N N rapply rload rinit
+                   (Some (2, build_snapshot N rsnap (run N N rapply (firstn 2 reg_hist) (init_node N rinit))))
+                   2 (skipn 2 reg_hist) (length reg_hist) c = live c).
+Proof. vm_compute. split; [reflexivity | split; [reflexivity | intros c; destruct c; reflexivity]]. Qed.
